@@ -350,9 +350,18 @@ extern "C" int __wrap_epoll_wait(int epfd, struct epoll_event *events, int maxev
     if (n0 == 0) c16p::p_vsleep(timeout < 0 ? -1 : static_cast<long long>(timeout) * 1000);
     return n0;
   }
-  int n = __real_epoll_wait(epfd, events, maxevents, timeout);
-  if (n > 1 && c16p::p_cur_ep) std::sort(events, events + n, c16p::p_ev_lt());
-  return n;
+  if (c16p::p_cur_ep) {
+    // the kernel may hand back ANY maxevents of the ready descriptors; fix the answer: all ready ones are
+    // collected, ordered by fd (ascending / descending) and the first maxevents of them are returned
+    struct epoll_event all[64];
+    int n = __real_epoll_wait(epfd, all, 64, timeout);
+    if (n <= 0) return n;
+    std::sort(all, all + n, c16p::p_ev_lt());
+    if (n > maxevents) n = maxevents;
+    for (int i = 0; i < n; i++) events[i] = all[i];
+    return n;
+  }
+  return __real_epoll_wait(epfd, events, maxevents, timeout);
 }
 extern "C" int __real_select(int nfds, fd_set *r, fd_set *w, fd_set *x, struct timeval *tv);
 extern "C" int __wrap_select(int nfds, fd_set *r, fd_set *w, fd_set *x, struct timeval *tv) {
